@@ -29,6 +29,18 @@ CLAIMS["C14"] = {
     "design_ref": "DESIGN.md section 4, C14",
     "note": "Trusted: Lean kernel + standard axioms; float32 tables: 'nearest neighbours' are pairs within 1e-4 of the minimum squared distance; popcount is the definition of the number of differing label bits.",
 }
+CLAIMS["C01"] = {
+    "technique": "Lean 4 theorems on GF(2) vector-matrix products over Nat masks (additivity, certificate soundness by an additive-map argument) + kernel-evaluated certificates for the published G, H, R of every catalogue encoder regenerated from /repo (8 parallel modules) + correspondence of forward / calculate_syndrome",
+    "text": "Unbounded theorems: x.M (mod 2) as implemented (xor of the rows selected by x) is additive for every matrix; if G.H^T = 0 row by row every codeword has zero syndrome; if G.R = I then R extracts the message of every codeword (injectivity); an additive map fixing the n unit vectors fixes every n-bit vector, hence the kernel-checked identity I = R.G + H^T.S^T on unit vectors gives 'zero syndrome => codeword' for ALL 2^n words; H_J.W = I gives n-k independent rows of H. K obligations re-proved when a matrix changes: for each of the ~230 catalogue instances (random non-systematic generators, systematic with left/right/list/permuted information sets, Hamming mu 2..6 plain/extended, repetition, SPC, RM m<=5, every divisor of X^n+1 for n in {3,5,7,9,15} in both layouts, named cyclic codes, BCH mu<=5 all Bose distances + mu=6, RS-style mu<=4, Golay x4, LDPC from user matrices incl. rank-deficient) the published generator_matrix / check_matrix / generator_right_inverse satisfy these identities with certificates S, J, W computed by the untrusted harness. Corollaries per instance: encoding is linear, injective, length n; syndrome zero <=> codeword for every word; n-k independent check rows. Tie: forward() on all 2^k messages (k<=8 quick / 12 thorough, sampled above) and calculate_syndrome on codewords, all single-bit flips and random multi-bit perturbations must equal the model's products with the extracted matrices.",
+    "design_ref": "DESIGN.md section 4, C01",
+    "note": "Trusted: Lean kernel + standard axioms; matrices are read from the registered buffers; n <= 128 not required by the proofs; rank(H)=n-k is stated as n-k independent rows + null space of exactly 2^k words; Reed-Muller calculate_syndrome (an ML error pattern, 2^k enumeration) is compared by zero-ness only and skipped for k>14; polar codes are C11.",
+}
+CLAIMS["C04"] = {
+    "technique": "Lean 4 theorems: right-inverse round trip for any G.R = I, blockwise framing (split/concatenate, mask<->bits) for any number of blocks, rejection of non-multiples; shares the kernel-checked catalogue of C01; correspondence over layouts",
+    "text": "Unbounded theorems: for ANY matrices with G.R = I (row by row) extraction after encoding is the identity on all messages; for every catalogue instance additionally the syndrome is zero; blockwise_roundtrip: for any list of b message blocks, encoding the concatenation yields b.n bits, extraction returns the original b.k bits and the blockwise syndrome is all-zero; a last dimension that is not a multiple of the block size yields `none` (an error); output length is exactly (len/in).out. Tie: enc/inv lines for every catalogue encoder over layouts 1-D, (B,k), (B1,B2,k), b=1..4 concatenated blocks and all messages for k<=6, through inverse_encode, extract_message and project_word; non-multiples must raise.",
+    "design_ref": "DESIGN.md section 4, C04",
+    "note": "Trusted: as C01; leading batch dimensions are handled by the harness (each last-dimension row is one operation line); Hamming/Reed-Muller inverse_encode overrides are exercised on codewords only here (their correcting behaviour is C02).",
+}
 
 NOT_YET = {}
 
